@@ -443,6 +443,7 @@ struct RunOut {
     dups: Vec<DupObs>,
     adv: Vec<AdvObs>,
     finals: Vec<Snap>,
+    ops: Vec<TestOperation>,
     /// the real API refused an action the model allowed (scenario cut there; not a C39 matter)
     refused: Option<String>,
     machinery: Option<String>,
@@ -758,6 +759,7 @@ async fn run_once(cfg: RunCfg<'_>) -> RunOut {
         }
     }
 
+    out.ops = w.ops.clone();
     for p in 0..n {
         match w.snapshot(p).await {
             Ok(s) => out.finals.push(s),
@@ -1285,10 +1287,16 @@ async fn execute(ch: &Chooser, params: &Params) -> ExecOut {
         // differential against the baseline (only for peers none of whose duplicates fired, and
         // only on observables that two identical runs reproduce)
         if ids_repro && hashes(&d) != hashes(&b0) && fired.is_empty() {
+            let at = (0..n.min(d.msgs.len())).find(|&i| d.msgs[i].hash != b0.msgs[i].hash).unwrap_or(0);
+            let dbg = if std::env::var("VH_C39_DEBUG").is_ok() {
+                format!(" DEBUG baseline={:?} dup-run={:?}", b0.ops.get(at).map(|o| &o.header), d.ops.get(at).map(|o| &o.header))
+            } else {
+                String::new()
+            };
             ex.findings.push(Finding {
                 key: "latent-divergence/forged-message-ids".into(),
                 weight: (n, format!("{k}")),
-                what: format!("no duplicate had a visible effect, yet the messages forged later differ from the run without duplicates: scenario [{}], duplicate distance {k}", show_acts(&t.acts)),
+                what: format!("no duplicate had a visible effect, yet the messages forged later differ from the run without duplicates (first at #{at}, {}): scenario [{}], duplicate distance {k}{dbg}", b0.msgs[at].kind, show_acts(&t.acts)),
                 replay: replay.clone(),
             });
         }
